@@ -1,22 +1,75 @@
 # C04 — a failing actor is suspended and the supervisor's directive is applied
+# Two sub-checks: the kernel model (klock, shared with C03/C05/C06) and the supervision strategy layer (c04strat).
 import kernel_common as K
+import vlib
+
+TRUSTED_STRAT = [
+    "hand-written model coq/C04/StratModel.v of engine/vivid/supervision/{one_for_one,accident_state,restart_strategy,stop_strategy,"
+    "resume_strategy,directive}.go (one strategy instance shared by all victims, per-victim accident count, multiset of pending "
+    "time.AfterFunc timers), tied on every run by differential execution (harness/cmd/c04strat): the REAL strategy objects are driven "
+    "with generated Fail/Solved/Advance sequences against a fake Supervisor inside a testing/synctest bubble (go1.26.8, virtual "
+    "time), and the calls with their exact virtual timestamps and AccidentCount() after every operation are compared inside Coq",
+    "the back-off delay is an oracle input of the strategy model: chrono.StandardExponentialBackoff is called by the harness with its "
+    "own failure count under the same injected random draw (global generator of math/rand/v2 replaced via go:linkname, link flag "
+    "-checklinkname=0); the model only requires the contract that C18 proves (-1 iff limit set and count > limit, else 0 <= d <= max)",
+    "deciders are functions of (victim, AccidentCount of the record); calls of timers that fire at the same virtual instant are "
+    "compared in timer-creation order (each call carries its own timestamp)",
+    "the kernel's use of the layer (ReportAbnormal = Record + OnPolicyDecision at the supervisor, Solved after a successful OnLaunch: "
+    "actor_context.go:305-348, 426) is reproduced by the harness by hand; how the kernel reacts to Supervisor.Restart/Stop/Resume/"
+    "Escalate is the kernel sub-check's business",
+]
 
 MANIFEST = {
-    "text": "Kernel model (supervision: ReportAbnormal, suspension at delivery time, escalation, victim and supervisor strategies, "
-            "Restart/Stop/Resume/Escalate) replayed in lockstep against the real actor system with failures injected by scripted panics and "
-            "ReportAbnormal in user-message, OnLaunch and lifecycle handlers, all four directives, by-count directive lists. Proved: a suspended "
-            "mailbox never hands a user message to the actor (C04_suspended_pops_no_user_partial) and, for C02, message conservation across "
-            "failure/restart/stop. The trace-level statement 'no user message between failure and decision' and the directive effects are "
-            "checked per run (monitor C04:user-message-before-decision + step-by-step equality with the model), not yet by theorem.",
-    "note": "Partial. Back-off delays of OneForOne (time.AfterFunc) and restart limits are outside the lockstep model (covered by C18 for the "
-            "delay function). Open finding shared with C05: a panic in a lifecycle handler of a non-alive actor blocks shutdown.",
-    "technique": "Coq proof on a message-step kernel model + lockstep differential replay of the real actor system inside Coq",
+    "text": "Two tied models. (1) Kernel model (supervision: ReportAbnormal, suspension at delivery time, escalation, victim and supervisor "
+            "strategies, Restart/Stop/Resume/Escalate as IMMEDIATE scripted directives) replayed in lockstep against the real actor system "
+            "with failures injected by scripted panics and ReportAbnormal in user-message, OnLaunch and lifecycle handlers. Proved: a suspended "
+            "mailbox never hands a user message to the actor, a suspension is lifted only by the directive (Resume, completed restart, "
+            "termination), registry well-formedness; the trace-level statement 'no user message between failure and decision' is checked "
+            "per run (monitor C04:user-message-before-decision + step-by-step equality with the model). "
+            "(2) Strategy layer (OneForOne with restart limit and back-off timers, AccidentState, canned Restart/Stop/Resume): executable "
+            "model of ONE strategy instance shared by any number of victims with the multiset of pending time.AfterFunc timers. Proved for "
+            "every operation sequence, any number of victims, every limit/base/max and every decider of (victim, count): what happens to a "
+            "victim (calls, pending timers, count) is exactly what its own operations produce — a sibling's failure never cancels, delays or "
+            "duplicates a restart (C04_strat_sibling_independence); the Restart calls made plus the timers pending are exactly the restarts "
+            "granted, each carried out exactly once at decision time + decided delay, never earlier, pending until then "
+            "(C04_strat_restart_ledger, _exactly_once, _restart_granted: delay in [0, max]); with limit >= 0 the (limit+1)-th consecutive "
+            "failure is answered by Stop at once and no timer (C04_strat_limit_honoured); the count is the number of failures since Solved, "
+            "without saturation (C04_strat_count_exact, _count_laws); Stop/Resume/Escalate and the canned strategies call exactly that, at "
+            "once, no timer (C04_strat_immediate_calls, _directive_at_once, _canned_at_once); the contract demanded of the back-off oracle is what "
+            "C18 proves of its back-off model (C04_strat_oracle_contract_is_C18). Each run drives the real strategy objects "
+            "with ~1 600 sequences (30 000 + every sequence of length <= 6 over 5 operations, thorough) on virtual time (synctest) and compares "
+            "every Supervisor call, its timestamp and AccidentCount() with the model inside Coq; Go-side monitors C04:strategy:* restate "
+            "the property (restart missing/duplicated/early/late/after-limit, stop missing, sibling affected by differential rerun of each "
+            "victim alone, count wrong).",
+    "note": "Partial. The two models are tied to the code separately, not to each other: that the kernel calls Record/OnPolicyDecision/Solved "
+            "as the strategy harness does, and that a Restart arriving after a delay (instead of immediately) leaves the kernel theorems "
+            "intact, is argued by reading actor_context.go, not proved. The VALUE of the back-off delay (exponential growth, jitter band) is "
+            "C18's business: here it is an oracle input constrained by the contract of StandardExponentialBackoff, and run against the real "
+            "function on every case. Deciders that depend on more than (victim, count), e.g. on wall time or on other victims, are outside the "
+            "independence theorem. Open finding shared with C05: a panic in a lifecycle handler of a non-alive actor blocks shutdown.",
+    "technique": "Coq proof on a message-step kernel model + lockstep differential replay of the real actor system inside Coq; "
+                 "Coq proofs (simulation for independence, multiset ledger for timers) on a timer-level strategy model + differential "
+                 "runs of the real strategy objects on synctest virtual time with the back-off as an injected oracle",
 }
+
+STRAT = {"pkg": "c04strat", "sub": "strat", "go": "go1.26.8", "kinds": ["C04:strategy:"]}
+
+_orig_go_build = vlib.go_build
+
+
+def _go_build(ctx, pkg, **kw):
+    # c04strat is a test binary (synctest needs *testing.T) and replaces math/rand/v2's global generator via go:linkname
+    if pkg == "c04strat":
+        kw["test"], kw["go"], kw["extra"] = True, "go1.26.8", ["-ldflags=-checklinkname=0"]
+    return _orig_go_build(ctx, pkg, **kw)
 
 
 def check(ctx):
-    return K.check(ctx, "C04", ["C04:", "kernel:"], "DESIGN.md §6 C04")
+    vlib.go_build = _go_build
+    return K.check(ctx, "C04", ["C04:", "kernel:"], "DESIGN.md §6 C04; docs/C04-STRATEGY-NOTES.md",
+                   extra_subs=[STRAT], extra_trusted=TRUSTED_STRAT)
 
 
 def replay(ctx, path):
-    return K.replay(ctx, path)
+    vlib.go_build = _go_build
+    return K.replay(ctx, path, extra_pkgs={"strat": "c04strat"})
